@@ -166,6 +166,12 @@ def run(chk: lib.Check):
         layer_children = [c for l_ in layers for c in l_ if isinstance(c.tag, str) and c.get("id") and c.get(graph.XSI_TYPE) and len(c)
                           and c.get(graph.XSI_TYPE) not in link_types]
         rng.shuffle(layer_children)
+        type_count = collections.Counter(e.get(graph.XSI_TYPE) for e in elems if e.get(graph.XSI_TYPE))
+        movable_holder_roots = [e for e in elems if e.getparent() is not None and e.get(graph.XSI_TYPE) and len(e) and e.get(graph.XSI_TYPE) not in link_types
+                                and e.getparent().get("id") and e.getparent().getparent() is not None and e.getparent().getparent().get("id")
+                                and type_count[e.getparent().getparent().get(graph.XSI_TYPE)] >= 2
+                                and not (e.getparent().get(graph.XSI_TYPE) or "").endswith("Architecture")]
+        rng.shuffle(movable_holder_roots)
         ids_all = [e.get("id") for e in elems]
         for li in range(n_layouts):
             k = rng.choice([1, 2, 3])
@@ -174,7 +180,10 @@ def run(chk: lib.Check):
             for _ in range(k):
                 t = kinds[(li * 3 + len(picks)) % len(kinds)] if rng.random() < 0.7 else rng.choice(kinds)
                 e = rng.choice(by_type[t])
-                if not chosen and li % 2 == 1 and layer_children:
+                if not chosen and li % 4 == 2 and movable_holder_roots:
+                    # a root whose holder (parent) can be moved to another object of the grandparent's class
+                    e = movable_holder_roots[(li // 4) % len(movable_holder_roots)]
+                elif not chosen and li % 2 == 1 and layer_children:
                     # the packages directly below an architecture layer: the layer's own relations look INTO them (root_function,
                     # root_component, all_*, actor_exchanges, ...)
                     e = layer_children[(li // 2) % len(layer_children)]
@@ -339,13 +348,17 @@ def run(chk: lib.Check):
                     # the glued tree): its parent goes to another object of the grandparent's class
                     holder_move = None
                     hold_el = chosen[0].getparent()
-                    if hold_el is not None and hold_el.get("id") and hold_el.getparent() is not None and hold_el.getparent().get("id"):
+                    for _lvl in range(4):       # the direct holder or one of its next ancestors, whichever can be moved somewhere
+                        if hold_el is None or not hold_el.get("id") or hold_el.getparent() is None or not hold_el.getparent().get("id"):
+                            break
                         gp_el = hold_el.getparent()
                         hold_desc = {id(d) for d in hold_el.iter()}
                         dests_ = [e for e in elems if e.get(graph.XSI_TYPE) == gp_el.get(graph.XSI_TYPE) and e.get("id") and e is not gp_el
                                   and id(e) not in hold_desc and not any(id(a) in hold_desc for a in e.iterancestors())]
-                        if dests_:
+                        if dests_ and not (hold_el.get(graph.XSI_TYPE) or "").endswith("Architecture"):
                             holder_move = (hold_el.get("id"), dests_[li % len(dests_)].get("id"))
+                            break
+                        hold_el = gp_el
                     mono2 = corpus.load(spec0)
 
                     def structural_edits(m):
